@@ -37,6 +37,16 @@ def gen_case(rs, tier):
         clauses = []
         for _ in range(rng.randint(0, 5)):
             k = rng.randint(1, min(3, n))
+            if rng.random() < 0.3:
+                # clauses may repeat a literal or contain a literal and its negation: legal, and rendered literal by literal
+                vs = [rng.randint(1, n) for _ in range(rng.randint(2, 4))]
+                signs = {}
+                lits = []
+                for v in vs:
+                    sg = signs.setdefault(v, rng.random() < 0.5) if rng.random() < 0.8 else (rng.random() < 0.5)
+                    lits.append(v if sg else -v)
+                clauses.append(lits)
+                continue
             vs = rng.sample(range(1, n + 1), k)
             clauses.append([v if rng.random() < 0.5 else -v for v in vs])
         reqs = []
